@@ -384,7 +384,7 @@ func (h *hist) acceptStray() {
 	}
 }
 
-func (h *hist) warmup() {
+func (h *hist) warmup() bool {
 	for _, e := range h.cl {
 		h.write(e, 10)
 	}
@@ -402,7 +402,7 @@ func (h *hist) warmup() {
 	}
 	for _, a := range h.acc {
 		if a == nil {
-			panic("pool: warm-up did not establish all sessions")
+			return false
 		}
 	}
 	h.pumpSettle(2)
@@ -414,10 +414,11 @@ func (h *hist) warmup() {
 		h.write(h.extra, 10)
 		h.pumpSettle(2)
 		if un, _ := kcp.VerifListenerBacklog(h.l); un == 0 {
-			panic("pool: backlog scenario did not create an un-accepted session")
+			return false
 		}
 	}
 	h.net.setFaults(h.c.loss, h.c.dup)
+	return true
 }
 
 var sizes = []int{1, 30, 500, 1400, 4000, 20000, 60000}
@@ -469,6 +470,32 @@ func (h *hist) fullQueues() {
 	}
 }
 
+// retunePhase: with different FEC parameters on the two sides, sustained traffic makes the
+// receiving decoders detect the mismatch, re-tune (recycling their shard sets) and later discard
+// old groups — the recycle sites of fec.go that ordinary histories do not reach.
+func (h *hist) retunePhase() {
+	h.step("bulk both ways until the decoders re-tune")
+	for k := 0; k < 6; k++ {
+		for i, e := range h.cl {
+			h.write(e, 12000)
+			h.write(h.acc[i], 12000)
+		}
+		h.pumpSettle(3)
+		for _, e := range h.all() {
+			h.drain(e)
+		}
+	}
+	for i, e := range h.cl {
+		d, p, _ := kcp.VerifSessionDecoder(h.acc[i].s)
+		if d == h.c.cds && p == h.c.cps && (h.c.sds != h.c.cds || h.c.sps != h.c.cps) {
+			h.o.Count("fec-decoder-retuned")
+		} else {
+			h.o.Count("fec-decoder-not-retuned")
+		}
+		_ = e
+	}
+}
+
 func (h *hist) closeItem(it string) {
 	switch {
 	case it == "L":
@@ -483,10 +510,14 @@ func (h *hist) closeItem(it string) {
 		fmt.Sscanf(it, "Tc%d", &i)
 		h.cconn[i].Close()
 	case it == "Tx":
-		h.xconn.Close()
+		if h.xconn != nil {
+			h.xconn.Close()
+		}
 	case it == "x":
-		h.extra.closed = true
-		h.extra.s.Close()
+		if h.extra != nil {
+			h.extra.closed = true
+			h.extra.s.Close()
+		}
 	case it[0] == 'c':
 		var i int
 		fmt.Sscanf(it, "c%d", &i)
@@ -818,14 +849,29 @@ func runHistory(o *hx.Out, g *hx.Rng, c cfg, tier string, perEvent bool) {
 	}
 	snmp0 := kcp.DefaultSnmp.Copy()
 	h.setup()
-	h.warmup()
-	if c.scenario == "fullq" {
+	established := h.warmup()
+	if !established {
+		// the sessions could not even exchange their first packets: close everything and let the
+		// oracles say why (e.g. poisoned datagrams); if they have nothing to say the harness is broken
+		h.step("warm-up failed")
+		h.c.concurrent = false
+		for i := range h.acc {
+			if h.acc[i] == nil {
+				h.acc[i] = &endpoint{name: "dummy", s: h.cl[i].s, closed: true}
+			}
+		}
+		c.steps = 0
+	}
+	if established && c.scenario == "fullq" {
 		h.fullQueues()
+	}
+	if established && c.fecMismatch {
+		h.retunePhase()
 	}
 	for i := 0; i < c.steps; i++ {
 		h.trafficStep()
 	}
-	if c.scenario == "idle" {
+	if established && c.scenario == "idle" {
 		h.step("drain to idle")
 		for k := 0; k < 6; k++ {
 			h.pumpSettle(2)
@@ -857,6 +903,9 @@ func runHistory(o *hx.Out, g *hx.Rng, c cfg, tier string, perEvent bool) {
 	for _, v := range h.found {
 		v.Replay = replay
 		o.Violate(v)
+	}
+	if !established && len(h.found) == 0 {
+		panic("pool: warm-up did not establish all sessions and no oracle explains it")
 	}
 }
 
